@@ -133,6 +133,8 @@ func (o Op) String() string {
 		return fmt.Sprintf("lock(%d,%d,%d,%d,%v)", o.X, o.Y, o.W, o.H, o.Lock)
 	case "restore":
 		return fmt.Sprintf("restore(%d,%d,via%d)", o.X, o.Y, o.CS)
+	case "failshow":
+		return fmt.Sprintf("show-with-write-failing-after-%d-bytes,show,sync", o.X)
 	}
 	return o.K
 }
@@ -296,6 +298,37 @@ type GenOpts struct {
 	NoLock        bool
 	NoCursorStyle bool
 	Urls          bool
+	// WeirdColors: colour values outside what the constructors normally yield (palette indices
+	// beyond 255 through TrueColor, negative hex values, colours without the valid bit). Only for
+	// checks that judge the well-formedness of the output, not the displayed colour.
+	WeirdColors bool
+	// SuspendResume: the application hands the terminal to another program and takes it back
+	// (Suspend, foreign output, Resume), then shows
+	SuspendResume bool
+	// WriteFail: a Show during which the terminal stops accepting output (Tty.Write fails after
+	// some bytes), followed by an idle Show and a Sync
+	WriteFail bool
+}
+
+// WeirdColor returns one of those values.
+func WeirdColor(r *rand.Rand) tcell.Color {
+	switch r.IntN(8) {
+	case 0:
+		return tcell.PaletteColor(300 + r.IntN(1000)).TrueColor()
+	case 1:
+		return tcell.NewHexColor(-int32(1 + r.IntN(5)))
+	case 2:
+		return tcell.GetColor("#-00001")
+	case 3:
+		return tcell.PaletteColor(256 + r.IntN(5000))
+	case 4:
+		return tcell.Color(0x1234 + r.IntN(100)) // no valid bit
+	case 5:
+		return tcell.ColorIsRGB | tcell.Color(r.IntN(1<<24)) // RGB flag without the valid bit
+	case 6:
+		return tcell.NewRGBColor(int32(300+r.IntN(100)), -5, 1000)
+	}
+	return tcell.PaletteColor(-1 - r.IntN(3))
 }
 
 func GenColor(r *rand.Rand) tcell.Color {
@@ -380,6 +413,16 @@ func Gen(r *rand.Rand, o GenOpts) (int, int, []Op) {
 				}
 			}
 			o2.Sp = GenSpec(r, o.Urls)
+			if o.WeirdColors && r.IntN(5) == 0 {
+				switch r.IntN(3) {
+				case 0:
+					o2.Sp.Fg = WeirdColor(r)
+				case 1:
+					o2.Sp.Bg = WeirdColor(r)
+				default:
+					o2.Sp.Us, o2.Sp.Ul = 1+r.IntN(5), WeirdColor(r)
+				}
+			}
 			ops = append(ops, o2)
 		case k < 62:
 			// re-store whatever the cell holds now (identical content)
@@ -412,7 +455,13 @@ func Gen(r *rand.Rand, o GenOpts) (int, int, []Op) {
 				ops = append(ops, Op{K: "sync"})
 			}
 		case k < 84:
-			ops = append(ops, Op{K: "sync"})
+			if o.SuspendResume && r.IntN(3) == 0 {
+				ops = append(ops, Op{K: "suspres"})
+			} else if o.WriteFail && r.IntN(3) == 0 {
+				ops = append(ops, Op{K: "failshow", X: r.IntN(60)})
+			} else {
+				ops = append(ops, Op{K: "sync"})
+			}
 		case k < 88:
 			if !o.NoResize {
 				nw, nh := 2+r.IntN(o.MaxW-1), 1+r.IntN(o.MaxH)
